@@ -230,7 +230,7 @@ Proof. exact fill_as_ops. Qed.
 
 (** No AssertionError.  In exact real arithmetic, with the volume heuristic and the cost
     assertion of insert_leaf as the source states them ([o_go_left], [o_cost_ok]; at binary64
-    they are the functions the correspondence check executes) and collider boxes that are
+    they are the functions the correspondence check executes: Proofs/BvhReal.v, heuristics_at_binary64) and collider boxes that are
     valid (min <= max, C04): update_collider_poses can only raise KeyError (a registered frame
     unknown to the transform manager) or fail on an unknown object, it returns normally when
     neither happens, and add_collider cannot raise at all on a known object. *)
@@ -273,19 +273,15 @@ Proof.
   exact (add_collider_raises_only R _ _ 0%R _ _ frame feqb coll pose aabb_of okboxR cost_total_R H).
 Qed.
 
-(** the hypotheses on the coordinate order hold for the reals, and the heuristics run by the
-    correspondence check are the binary64 instance of the ones above *)
+(** the hypotheses on the coordinate order hold for the reals.  (That the heuristics run by the
+    correspondence check are the binary64 instance of [o_go_left] / [o_cost_ok] is the lemma
+    [heuristics_at_binary64] of Proofs/BvhReal.v, proved by reflexivity; it is not restated here
+    because Print Assumptions lists the PrimFloat primitives as axioms.) *)
 Theorem real_order_ok :
   (forall a b c, Rleb a b = true -> Rleb b c = true -> Rleb a c = true) /\
   (forall a b, Rleb (@Ops.fmin R ROps a b) a = true) /\ (forall a b, Rleb (@Ops.fmin R ROps a b) b = true) /\
   (forall a b, Rleb a (@Ops.fmax R ROps a b) = true) /\ (forall a b, Rleb b (@Ops.fmax R ROps a b) = true).
 Proof. exact R_order_ok. Qed.
-
-Theorem heuristics_are_the_executed_ones :
-  AabbTreeRun.fmin = @Ops.fmin PrimFloat.float FOps /\ AabbTreeRun.fmax = @Ops.fmax PrimFloat.float FOps /\
-  f_go_left = @o_go_left PrimFloat.float FOps /\ f_cost_ok = @o_cost_ok PrimFloat.float FOps /\
-  fle = @o_le PrimFloat.float FOps.
-Proof. exact heuristics_at_binary64. Qed.
 
 (** The generated whitelists (LinkInfo): a collision frame whitelists the collision frames
     of its own link, of the link recorded last as its parent and of the link recorded last
@@ -394,7 +390,6 @@ Print Assumptions update_poses_never_asserts_R.
 Print Assumptions update_poses_succeeds_R.
 Print Assumptions add_collider_never_asserts_R.
 Print Assumptions real_order_ok.
-Print Assumptions heuristics_are_the_executed_ones.
 Print Assumptions generated_whitelist_spec.
 Print Assumptions generated_whitelists_lookup.
 Print Assumptions generated_whitelists_can_be_asymmetric.
